@@ -34,3 +34,4 @@ run revert-ZD-set-constant C14 "non-empty set constant" C14
 run revert-ZE-string-literal-vec C14 "string literal default on a binary field with pilota.rust_type = vec" C14
 run revert-ZF-const-to-string C14 "string constant default on a field with pilota.rust_type = string / binary" C14
 run revert-ZG-proto-absolute-path C14 "nested protobuf message with the simple name of another message, referring to it by its absolute name" C05 C06 C14
+run revert-ZH-hashed-set-key C14 "inline set or map as set element / map key (map<set<i32>, V>)" C14
